@@ -10,6 +10,7 @@ import (
 	"fmt"
 	"math"
 	"math/big"
+	"runtime/debug"
 	"sort"
 	"strconv"
 	"strings"
@@ -18,6 +19,7 @@ import (
 	"github.com/wader/fq/pkg/decode"
 	"github.com/wader/fq/pkg/interp"
 	"github.com/wader/fq/verif/lib/fqx"
+	"github.com/wader/fq/verif/lib/harness"
 )
 
 // rootHolder returns a jq value h such that `h | getpath(p)` with p =
@@ -275,6 +277,9 @@ type pairResult struct {
 	DV, JV outcome // q applied to the decode value / to tovalue of it
 }
 
+// journalPrefix describes the tree of the running case (set by the tests).
+var journalPrefix string
+
 var (
 	theInterp  *fqx.Interp
 	evalCount  int
@@ -321,8 +326,30 @@ func toOutcome(v any) (outcome, bool) {
 	return o, true
 }
 
-// evalBatch evaluates all pairs against the tree below holder.
-func evalBatch(holder any, items []item) ([]pairResult, error) {
+// panicError is a Go panic that escaped the evaluation of a batch.
+type panicError struct {
+	val   any
+	stack string
+}
+
+func (p *panicError) Error() string { return fmt.Sprintf("panic: %v", p.val) }
+
+// evalBatch evaluates all pairs against the tree below holder.  A Go panic
+// inside fq is returned as *panicError (and the interpreter is replaced).
+func evalBatch(holder any, items []item) (res []pairResult, err error) {
+	defer func() {
+		if r := recover(); r != nil {
+			if theInterp != nil {
+				theInterp.Close()
+				theInterp = nil
+			}
+			res, err = nil, &panicError{val: r, stack: string(debug.Stack())}
+		}
+	}()
+	return evalBatch1(holder, items)
+}
+
+func evalBatch1(holder any, items []item) ([]pairResult, error) {
 	if theInterp == nil || evalCount%500 == 499 {
 		if theInterp != nil {
 			theInterp.Close()
@@ -335,7 +362,12 @@ func evalBatch(holder any, items []item) ([]pairResult, error) {
 	}
 	evalCount++
 	start := time.Now()
-	outs, rerr, cerr := theInterp.Eval(context.Background(), holder, batchProgram(items))
+	prog := batchProgram(items)
+	// a fault that kills the process (stack overflow) is attributed to the
+	// journalled batch by the driver
+	harness.Journal(journalPrefix + "\n" + prog)
+	outs, rerr, cerr := theInterp.Eval(context.Background(), holder, prog)
+	harness.JournalClear()
 	evalNanos += time.Since(start).Nanoseconds()
 	if cerr != nil {
 		return nil, fmt.Errorf("compile: %w", cerr)
